@@ -70,10 +70,47 @@ type replayResult struct {
 	Panic    string
 	Vacuous  bool
 	Ran      bool
+	Crashed  bool
 }
 
 // nativeReplay runs the given replay files against the real build.
+// nativeReplay runs all files in one test process; files that produced
+// no result line (the process died, e.g. a panic in a background
+// goroutine) are re-run one by one and a crash is recorded as such.
 func nativeReplay(P *Program, files []string, race bool) (map[string]*replayResult, string, error) {
+	res, out, err := nativeReplayBatch(P, files, race)
+	if err != nil {
+		return res, out, err
+	}
+	for _, f := range files {
+		if res[f] != nil {
+			continue
+		}
+		r1, o1, e1 := nativeReplayBatch(P, []string{f}, race)
+		out += o1
+		if r1[f] != nil {
+			res[f] = r1[f]
+			continue
+		}
+		if e1 != nil && !strings.Contains(o1, "panic:") && !strings.Contains(o1, "fatal error:") {
+			return res, out, e1
+		}
+		msg := "process crashed"
+		for _, l := range strings.Split(o1, "\n") {
+			if strings.HasPrefix(l, "panic:") || strings.HasPrefix(l, "fatal error:") {
+				msg = "process crashed: " + l
+				break
+			}
+		}
+		if strings.Contains(o1, "test timed out") {
+			msg = "process hung (test timed out)"
+		}
+		res[f] = &replayResult{Ran: true, Panic: msg, Crashed: true}
+	}
+	return res, out, nil
+}
+
+func nativeReplayBatch(P *Program, files []string, race bool) (map[string]*replayResult, string, error) {
 	res := map[string]*replayResult{}
 	if len(files) == 0 {
 		return res, "", nil
@@ -101,12 +138,19 @@ func nativeReplay(P *Program, files []string, race bool) (map[string]*replayResu
 		}
 	}
 	ov["Replace"][filepath.Join(P.RepoDir, "zz_verif_registry.go")] = regPath
+	shim, err := shimOverlay(P.RepoDir, tmp)
+	if err != nil {
+		return nil, "", fmt.Errorf("shim rewrite: %v", err)
+	}
+	for k, v := range shim {
+		ov["Replace"][k] = v
+	}
 	ob, _ := json.Marshal(ov)
 	ovPath := filepath.Join(tmp, "overlay.json")
 	os.WriteFile(ovPath, ob, 0644)
 	listPath := filepath.Join(tmp, "list.txt")
 	os.WriteFile(listPath, []byte(strings.Join(files, "\n")+"\n"), 0644)
-	args := []string{"test", "-tags", "verif", "-vet=off", "-count=1", "-overlay", ovPath, "-run", "^TestVerifReplay$", "-timeout", "300s", "-v"}
+	args := []string{"test", "-tags", "verif", "-vet=off", "-count=1", "-overlay", ovPath, "-run", "^TestVerifReplay$", "-timeout", "120s", "-v"}
 	if race {
 		args = append(args, "-race")
 	}
@@ -127,7 +171,11 @@ func nativeReplay(P *Program, files []string, race bool) (map[string]*replayResu
 		res[m[1]] = r
 	}
 	if len(res) == 0 && runErr != nil {
-		return res, string(out), fmt.Errorf("native replay failed: %v", runErr)
+		so := string(out)
+		if strings.Contains(so, "panic:") || strings.Contains(so, "fatal error:") || strings.Contains(so, "test timed out") {
+			return res, so, nil
+		}
+		return res, so, fmt.Errorf("native replay failed: %v", runErr)
 	}
 	return res, string(out), nil
 }
@@ -331,7 +379,7 @@ func cmdCheck(args []string) int {
 	}
 	isKnown := func(key string) *knownFinding {
 		for k := range known {
-			if known[k].Property == prop && known[k].Status == "known" && known[k].Key == key {
+			if known[k].Property == prop && known[k].Status == "known" && globMatch(known[k].Key, key) {
 				return &known[k]
 			}
 		}
@@ -348,7 +396,7 @@ func cmdCheck(args []string) int {
 		r := results[path]
 		confirmed := false
 		if r != nil && r.Ran && !r.Vacuous {
-			if v.Kind == "panic" {
+			if v.Kind == "panic" || r.Crashed {
 				confirmed = r.Panic != ""
 			} else {
 				for _, f := range r.Failures {
@@ -364,8 +412,8 @@ func cmdCheck(args []string) int {
 			continue
 		}
 		if kf := isKnown(v.Key); kf != nil {
-			if !knownHit[v.Key] {
-				knownHit[v.Key] = true
+			if !knownHit[kf.Key] {
+				knownHit[kf.Key] = true
 				fmt.Printf("KNOWN-FINDING: property=%s %s [key=%s]\n", prop, kf.What, v.Key)
 			}
 			os.Remove(path)
@@ -461,6 +509,27 @@ func cmdCheck(args []string) int {
 		return 2
 	}
 	return 0
+}
+
+// globMatch matches key against a pattern in which '*' stands for any
+// run of characters.
+func globMatch(pat, key string) bool {
+	parts := strings.Split(pat, "*")
+	if len(parts) == 1 {
+		return pat == key
+	}
+	if !strings.HasPrefix(key, parts[0]) {
+		return false
+	}
+	key = key[len(parts[0]):]
+	for k := 1; k < len(parts)-1; k++ {
+		j := strings.Index(key, parts[k])
+		if j < 0 {
+			return false
+		}
+		key = key[j+len(parts[k]):]
+	}
+	return strings.HasSuffix(key, parts[len(parts)-1])
 }
 
 func maxInt(a, b int) int {
